@@ -92,13 +92,18 @@ namespace GeographicLib {
     Xn.y() = fabs(Xn.y()); Yn.y() = fabs(Yn.y());
     real k2 = -base::_e12;
     bool flip = base::_f < 0;
+    // angles before the flip: x -> pi/2 - x under the flip, so d -> -d (only d^2
+    // enters) and Dsin(x, y) = cos((x+y)/2) * sinc(d/2) -> sin((x0+y0)/2) * sinc(d/2)
+    real x0 = Xn.radians(), y0 = Yn.radians();
     // Switch prolate to oblate; we then can use the formulas for k2 < 0
     if (flip) {
       swap(Xn.x(), Xn.y());
       swap(Yn.x(), Yn.y());
       k2 = base::_e2;
     }
-    real x = Xn.radians(), y = Yn.radians(), d = y - x,
+    real d = y0 - x0, dh = d / 2,
+      Ds = (flip ? sin((x0 + y0) / 2) : cos((x0 + y0) / 2)) *
+      (dh != 0 ? sin(dh) / dh : 1),
       sx = Xn.y(), sy = Yn.y(), cx = Xn.x(), cy = Yn.x();
     // See DLMF: Eqs (19.11.2) and (19.11.4) letting
     // theta -> x, phi -> -y, psi -> z
@@ -111,7 +116,7 @@ namespace GeographicLib {
     //          = t = d * Dt
     // Delta(x) = sqrt(1 - k2 * sin(x)^2)
     // sin(z) = 2*t/(1+t^2); cos(z) = (1-t^2)/(1+t^2)
-    real Dt = Dsin(x, y) * (sx + sy) /
+    real Dt = Ds * (sx + sy) /
       ((cx + cy) * (sx * sqrt(1 - k2 * sy*sy) + sy * sqrt(1 - k2 * sx*sx))),
       t = d * Dt, Dsz = 2 * Dt / (1 + t*t),
       sz = d * Dsz, cz = (1 - t) * (1 + t) / (1 + t*t),
